@@ -48,7 +48,7 @@ def run_one(pid, m):
                 except Exception:
                     pass
             return dict(id=m["id"], status="detected", rule=m["expect"], line=hit[0].split(" replay=")[1].split(" ", 1)[1][:220], keys=[k for k in keys if m["expect"] in k][:3])
-        return dict(id=m["id"], status="MISSED", rule=m["expect"], other=[l[:160] for l in viol][:3])
+        return dict(id=m["id"], status="MISSED", rule=m["expect"], other=[l[l.index("rule="):][:160] if "rule=" in l else l[:160].replace("VIOLATION ", "alarm ") for l in viol][:3])
     finally:
         subprocess.run(["git", "-C", "/repo", "worktree", "remove", "--force", r], stdout=subprocess.DEVNULL, stderr=subprocess.DEVNULL)
         shutil.rmtree(d, ignore_errors=True)
@@ -90,7 +90,9 @@ def seeds_and_controls(pid, quiet):
     for n in s_miss:
         print("SELFTEST-MISS property=%s seed=%s (was detected when recorded)" % (pid, n))
     for n, l in c_alarm:
-        print("SELFTEST-FALSE-ALARM property=%s control=%s %s" % (pid, n, l))
+        # the alarm was raised on a scratch copy with the control applied, not on /repo: do not echo it as a VIOLATION line
+        l = l[l.index("rule="):] if "rule=" in l else l.replace("VIOLATION ", "alarm ")
+        print("SELFTEST-FALSE-ALARM%s property=%s control=%s %s" % (" (recorded limit, DESIGN 10.9)" if n == "RF8-2.diff" else "", pid, n, l))
     print("selftest: property=%s seeds=%d detected=%d stale=%d missed=%d ; controls=%d silent=%d stale=%d false_alarms=%d" % (
         pid, len(sres), len(s_det), len(s_stale), len(s_miss), len(cres), len(c_clean), len(c_stale), len(c_alarm)))
     return {"independent_seeds": {"applied": len(sres) - len(s_stale), "detected": len(s_det), "missed": s_miss, "stale": s_stale},
